@@ -16,6 +16,18 @@ CLAIMS = {
   text="Lean 4 theorems (DDV.Props.C03): under start<=end<=8*len and width<=carrier the model of load/store never reaches an out-of-bounds index, usize underflow or over-wide shift (all are explicit failure values in the model), keeps the slice length and leaves every byte that holds no bit of the range unchanged. Differential correspondence with canary bytes around every slice and debug UB checks on. Part (b) (every accessor the generator accepts satisfies that precondition) is proved over the generator model in DDV.Props.C03Gen once that model is built; until then only part (a) is decided.",
   note="As C01; canaries and debug assertions detect, not prove, absence of stray writes in the real code.",
   technique="Lean 4 proof (safety precondition, footprint) + differential correspondence with canaries", ref="3.3"),
+ "C05": dict(
+  text="Lean 4 theorems (DDV.Props.C05): each of write / write_with_zero / read / modify is an interaction tree written from its Rust body; for every register, closure and interface script the blocking run is proved to make exactly the prescribed calls with the prescribed arguments and result (no write after a failed read), histories are proved to be concatenations (frame lemma), and a poll-level model of async execution is proved equal to the blocking run for every Pending pattern with exactly 1+sum(pend) polls (induction on the tree and on the pending counts). Differential correspondence runs the real RegisterOperation (sync and async, hand-rolled executor, scripted mocks) against the model on thousands of cases incl. exhaustive small suspension patterns.",
+  note="rustc's async lowering, waker contract and cancellation are outside the model; FieldSet impls in the harness are hand-written; the reset-constructor plumbing of generated code is covered under C08.",
+  technique="Lean 4 proof (interaction trees, poll-machine refinement) + differential correspondence", ref="3.5"),
+ "C09": dict(
+  text="Lean 4 theorems (DDV.Props.C09): for all four command shapes, every closure and interface answer, dispatch makes exactly one interface call with the five prescribed arguments and returns exactly what the interface wrote (or its error); dispatch_async equals dispatch under every suspension pattern. Differential correspondence against the real CommandOperation over 36 (in,out) type combinations.",
+  note="As C05. Shape selection by the generator (unit type for absent field sets) is checked with the generator facts (C04/C19).",
+  technique="Lean 4 proof (interaction trees) + differential correspondence", ref="3.9"),
+ "C10": dict(
+  text="Lean 4 theorems (DDV.Props.C10): write/read/flush pass-through; write_all and read_exact are proved to satisfy inductive contract relations (calls on exactly the unwritten/unfilled remainder, stop at first error, panic on Ok(0) resp. UnexpectedEof, slice-index panic on over-long counts) for every slice and every sequence of interface answers, by induction with an explicit fuel argument shown to be irrelevant; async twins and trait impls are proved equal to the inherent blocking ones under every suspension pattern. Differential correspondence against the real BufferOperation through inherent, embedded-io and embedded-io-async entry points.",
+  note="As C05. Method resolution (inherent over trait) inside the trait impls is rustc's and is validated by execution; the provided write_all/read_exact of the embedded-io crates are exercised, not modelled separately.",
+  technique="Lean 4 proof (inductive contract relations, poll-machine refinement) + differential correspondence", ref="3.10"),
 }
 
 NOT_YET = {
